@@ -364,10 +364,38 @@ type verifC03Decoded struct {
 	cntH   data_model.ArgMaxStringFloat32
 }
 
+// verifC03Body hands the insert body to the decoders and stops one that keeps asking for bytes
+// long after the end (a decoder loop that ignores read errors can otherwise spin for minutes on a
+// garbage length): decided by counting reads past the end, not by the clock.
+type verifC03Body struct {
+	r    *bytes.Reader
+	past int
+}
+
+type verifC03Runaway struct{}
+
+func (b *verifC03Body) Read(p []byte) (int, error) {
+	n, err := b.r.Read(p)
+	if err == io.EOF {
+		if b.past++; b.past > 1<<16 {
+			panic(verifC03Runaway{})
+		}
+	}
+	return n, err
+}
+
 func verifC03ReadBody(body []byte) (rows []*verifC03Decoded, err error) {
 	desc := getTableDesc()
 	cols := strings.Split(desc[strings.Index(desc, "(")+1:strings.LastIndex(desc, ")")], ",")
-	r := proto.NewReader(bytes.NewReader(body))
+	defer func() {
+		if p := recover(); p != nil {
+			if _, ok := p.(verifC03Runaway); !ok {
+				panic(p)
+			}
+			err = fmt.Errorf("row %d: a column decoder kept reading 65536 times past the end of the body", len(rows))
+		}
+	}()
+	r := proto.NewReader(&verifC03Body{r: bytes.NewReader(body)})
 	for {
 		first, e := r.ReadByte()
 		if errors.Is(e, io.EOF) {
